@@ -20,3 +20,5 @@ import Bmc.Proofs.EndToEnd.MetricsC18
 #print axioms Bmc.Proofs.GenLoops.V2Sessionless_SendCommand_events_eq
 #print axioms Bmc.Proofs.EndToEnd.generated_session_SendCommand_accounting
 #print axioms Bmc.Proofs.EndToEnd.generated_sessionless_SendCommand_accounting
+#print axioms Bmc.Proofs.EndToEnd.generatedRun_metrics
+#print axioms Bmc.Proofs.EndToEnd.generated_history_conservation
